@@ -44,26 +44,43 @@ overlaps count twice -/
 theorem union_multiplicity (a b : List Rect) (p : Cell) :
     cover (union a b) p = cover a p + cover b p := cover_append a b p
 
-/-- **one split step**: pieces are pairwise disjoint and cover exactly `rng \ base` -/
-theorem split_cells (base rng : Rect) (hw : rng.WF) (p : Cell) :
-    Covered (split base rng) p ↔ rng.mem p ∧ ¬ base.mem p := split_cover base rng hw p
+/-- **one split step**: the pieces lie in `rng` outside `base` … -/
+theorem split_inside (base rng : Rect) (hw : rng.WF) (p : Cell) :
+    Covered (split base rng) p → rng.mem p ∧ ¬ base.mem p := split_sub base rng hw p
+
+/-- … and cover exactly the cells of the sheet in `rng \ base` (rows and columns count from 1; index 0 only occurs
+as the first index of a whole row / column, where the code compares sides after `or 1`) -/
+theorem split_cells (base rng : Rect) (hw : rng.WF) (hb : base.Pos) (p : Cell) (hp : p.Real) :
+    Covered (split base rng) p ↔ rng.mem p ∧ ¬ base.mem p := split_cover base rng hw hb p hp
 
 theorem split_nodup (base rng : Rect) : (split base rng).Pairwise Disjoint := split_disjoint base rng
 
+/-- a whole row met by a rectangle that starts in column 1 leaves no strip to the left of column 1
+(the former phantom strip `n1 = n2 = 0`, read as column A once more) -/
+theorem split_no_phantom (base rng : Rect) (q : Rect) (hq : q ∈ split base rng) (hw : rng.WF) (hb : base.Pos)
+    (hp : rng.Pos) : q.Pos := split_pos base rng hb hp q hq
+
 /-- **set difference** (`Ranges.__sub__`): exactly the cells of `self` that are not in `other` -/
-theorem sub_cells (self other : List Rect) (hw : ∀ q ∈ self, q.WF) (p : Cell) :
+theorem sub_cells (self other : List Rect) (hw : ∀ q ∈ self, q.WF ∧ q.Pos) (ho : ∀ q ∈ other, q.Pos)
+    (p : Cell) (hp : p.Real) :
     Covered (sub self other) p ↔ Covered self p ∧ ¬ Covered other p := by
-  have := (subGo_inv self other [] [] hw (by simp) (by simp [Covered])).2 p
+  have := (subGo_inv self other [] [] hw ho (by simp) (by simp) (by simp [Covered]) (by simp [Covered])).2.2 p hp
+  simpa [sub, Covered] using this
+
+/-- … nothing else, whatever the coordinates … -/
+theorem sub_inside (self other : List Rect) (hw : ∀ q ∈ self, q.WF ∧ q.Pos) (ho : ∀ q ∈ other, q.Pos) (p : Cell) :
+    Covered (sub self other) p → Covered self p ∧ ¬ Covered other p := by
+  have := (subGo_inv self other [] [] hw ho (by simp) (by simp) (by simp [Covered]) (by simp [Covered])).2.1 p
   simpa [sub, Covered] using this
 
 /-- … and no cell twice, even when the areas of `self` overlap each other -/
-theorem sub_nodup (self other : List Rect) (hw : ∀ q ∈ self, q.WF) :
+theorem sub_nodup (self other : List Rect) (hw : ∀ q ∈ self, q.WF ∧ q.Pos) (ho : ∀ q ∈ other, q.Pos) :
     (sub self other).Pairwise Disjoint := by
-  have := (subGo_inv self other [] [] hw (by simp) (by simp [Covered])).1
+  have := (subGo_inv self other [] [] hw ho (by simp) (by simp) (by simp [Covered]) (by simp [Covered])).1
   simpa [sub] using this
 
-theorem sub_multiplicity (self other : List Rect) (hw : ∀ q ∈ self, q.WF) (p : Cell) :
-    cover (sub self other) p ≤ 1 := cover_le_one _ (sub_nodup self other hw) p
+theorem sub_multiplicity (self other : List Rect) (hw : ∀ q ∈ self, q.WF ∧ q.Pos) (ho : ∀ q ∈ other, q.Pos) (p : Cell) :
+    cover (sub self other) p ≤ 1 := cover_le_one _ (sub_nodup self other hw ho) p
 
 /-- **simplification** preserves exactly the real cells of the reference set … -/
 theorem simplify_cells (maxrow : Nat) (l : List Rect) (p : Cell) (hc : 1 ≤ p.col) (hr : p.row ≤ maxrow) :
@@ -83,7 +100,10 @@ theorem simplify_nodup (maxrow : Nat) (l : List Rect) (h2 : 2 ≤ l.length) :
 -- A1:C3 minus B2 : four strips, B2 itself excluded
 example : split ⟨0, 2, 2, 2, 2⟩ ⟨0, 1, 3, 1, 3⟩ =
     [⟨0, 1, 3, 1, 1⟩, ⟨0, 1, 3, 3, 3⟩, ⟨0, 1, 1, 2, 2⟩, ⟨0, 3, 3, 2, 2⟩] := by decide
-example : (⟨0, 1, 3, 1, 3⟩ : Rect).WF := by decide
+example : (⟨0, 1, 3, 1, 3⟩ : Rect).WF ∧ (⟨0, 2, 2, 2, 2⟩ : Rect).Pos := by unfold Rect.WF Rect.Pos; decide
+-- the whole rows 3:5 (columns 0 … 16384) without A3:XFD4: row 5 only, no strip left of column 1
+example : split ⟨0, 3, 4, 1, 16384⟩ ⟨0, 3, 5, 0, 16384⟩ = [⟨0, 5, 5, 0, 16384⟩] := by decide
+example : splitRaw ⟨0, 3, 4, 1, 16384⟩ ⟨0, 3, 5, 0, 16384⟩ = [⟨0, 3, 5, 0, 0⟩, ⟨0, 5, 5, 1, 16384⟩] := by decide
 -- A1:B2 B2:C3 = B2 ; A1 B2 = #NULL!
 example : inter ⟨0, 1, 2, 1, 2⟩ ⟨0, 2, 3, 2, 3⟩ = some ⟨0, 2, 2, 2, 2⟩ := by decide
 example : inter ⟨0, 1, 1, 1, 1⟩ ⟨0, 2, 2, 2, 2⟩ = none := by decide
